@@ -3,6 +3,7 @@ package rules
 import (
 	"fmt"
 	"go/ast"
+	"go/token"
 	"go/types"
 
 	"sialint/internal/cfgx"
@@ -28,7 +29,7 @@ func (pf poolFields) content() []*types.Var {
 }
 
 func init() {
-	Explanations["C14"] = "Decides structural necessary conditions of the pool contracts in chain.Manager: (R1) in every error-returning Manager method that writes the pool's transaction lists, index map or weight, no return that can carry an error is reachable after the first such write, and any such return after a mid-state Apply passes the store that discards the mid-state; (R2) every use of an index loaded from the shared id→position map to subscript a pool slice is dominated by a bounds test against that slice, and every 'found' return by an ID equality test with the looked-up key; (R3) every v2 transaction flowing from the pool's v2 list to a result of an exported method passes DeepCopy and v1 lists are cloned; (R4) the v2 submission parameter reaches the pool only through slices.Clone + DeepCopy (or a deep-copying callee); (R5) every output→position map built by a helper from range positions of a pool list is filled from one list only, and positions read from it subscript that same list. NOT decided: the exact truth table of 'known', validity of what is admitted (C05), behaviour of core's DeepCopy."
+	Explanations["C14"] = "Decides structural necessary conditions of the pool contracts in chain.Manager: (R1) in every error-returning Manager method that writes the pool's transaction lists, index map or weight, no return that can carry an error is reachable after the first such write, and any such return after a mid-state Apply passes the store that discards the mid-state; (R2) every use of an index loaded from the shared id→position map to subscript a pool slice is dominated by a bounds test against that slice, and every 'found' return by an ID equality test with the looked-up key; (R3) every v2 transaction flowing from the pool's v2 list to a result of an exported method passes DeepCopy and v1 lists are cloned; (R4) the v2 submission parameter reaches the pool only through slices.Clone + DeepCopy (or a deep-copying callee); (R5) every output→position map built by a helper from range positions of a pool list is filled from one list only, and positions read from it subscript that same list. (R6) the flag the set checker returns as 'known' starts true and is only ever lowered (constant false or a conjunction with itself), i.e. it is a conjunction over all transactions of the set. NOT decided: the rest of the truth table of 'known', validity of what is admitted (C05), behaviour of core's DeepCopy."
 
 	register(&Rule{ID: "C14.R1", Prop: "C14", Floor: 4,
 		Doc: "all-or-nothing: no error-capable return after the first write to the pool contents; error return after ms.Apply* discards ms",
@@ -42,6 +43,9 @@ func init() {
 	register(&Rule{ID: "C14.R5", Prop: "C14", Floor: 3,
 		Doc: "position maps are kind-safe: built from one pool list and used only on that list",
 		Run: positionMapsKindSafe})
+	register(&Rule{ID: "C14.R6", Prop: "C14", Floor: 1,
+		Doc: "`known` is a conjunction over the whole set: the flag starts true and is only ever lowered",
+		Run: c14r6})
 	register(&Rule{ID: "C14.R4", Prop: "C14", Floor: 1,
 		Doc: "copy-in: the v2 submission parameter is replaced by slices.Clone + per-element DeepCopy before any other use",
 		Run: c14r4})
@@ -691,5 +695,66 @@ func positionMapsKindSafe(c *Ctx) {
 				}
 			}
 		}
+	}
+}
+
+// c14r6: "known" must mean that *every* transaction of the set was already
+// pooled. The set checker's flag may therefore only ever be lowered: it starts
+// true and every later write is the constant false (or a conjunction with
+// itself). A plain `flag = inPool` per transaction makes the last transaction
+// decide, and a set whose earlier members are new is dropped as known.
+func c14r6(c *Ctx) {
+	pf := getPoolFields(c.P)
+	n := 0
+	for _, f := range c.P.MethodsOf("chain", "Manager") {
+		if exported(f) || f.Type.Results == nil || f.Type.Results.NumFields() != 2 {
+			continue
+		}
+		res := f.Obj.Type().(*types.Signature).Results()
+		if !isBasicKind(types.Bool)(res.At(0).Type()) || !ir.IsErrorType(res.At(1).Type()) || !f.MentionsField(f.Body, false, pf.indices) {
+			continue
+		}
+		g := f.Graph()
+		c.VisitGraph(f)
+		for _, ret := range g.Returns() {
+			if f.ClassifyReturn(ret) != ir.RetSuccess {
+				continue
+			}
+			rs := ret.AST.(*ast.ReturnStmt)
+			if len(rs.Results) != 2 {
+				continue
+			}
+			k := f.ObjOf(rs.Results[0])
+			if k == nil {
+				continue
+			}
+			n++
+			ob := c.Ob(f, "known-flag-only-lowered", ret.Pos())
+			startsTrue, bad := false, ""
+			for _, d := range wholeDefs(f, k) {
+				if d.RHS == nil {
+					bad = c.P.Pos(d.LHS.Pos())
+					continue
+				}
+				if tv, ok := f.Info().Types[d.RHS]; ok && tv.Value != nil {
+					if tv.Value.String() == "true" {
+						if d.Tok == token.DEFINE {
+							startsTrue = true
+						} else {
+							bad = c.P.Pos(d.LHS.Pos()) // raised again later
+						}
+					}
+					continue // constant false
+				}
+				if be, ok := ast.Unparen(d.RHS).(*ast.BinaryExpr); ok && be.Op == token.LAND && (f.ObjOf(be.X) == k || f.ObjOf(be.Y) == k) {
+					continue
+				}
+				bad = c.P.Pos(d.LHS.Pos())
+			}
+			ob.Check(startsTrue && bad == "", nil, "the flag returned as `known` at %s is not a conjunction over the whole set (it must start true and only ever be lowered; offending write at %s): a set whose last transaction is pooled but an earlier one is new is reported as known, dropped and not relayed", c.P.Pos(ret.Pos()), bad)
+		}
+	}
+	if n == 0 {
+		ir.Fail("set checker (unexported Manager method returning (bool, error) that consults the pool index) not found")
 	}
 }
